@@ -70,6 +70,13 @@ class Stub:
                 log.events.append(("call", callee, cargs, ()))
                 log.ncalls += 1
                 return value
+        if callee == ("glob", "builtins", "bytearray") and len(args) <= 1 and not kwargs \
+                and all(isinstance(a, (bytes, bytearray)) for a in args):
+            # likewise BYTEARRAY8 has no literal: source can only say bytearray(b"...").  The
+            # stand-in builds the (plain-data) bytearray; the call is still logged.
+            log.events.append(("call", callee, tuple(("bytes-like", bytes(a)) for a in args), ()))
+            log.ncalls += 1
+            return bytearray(*args)
         cargs = tuple(canon_s(a) for a in args)
         ckw = tuple(sorted((str(k), canon_s(v)) for k, v in kwargs.items()))
         ev = ("call", callee, cargs, ckw)
